@@ -39,6 +39,22 @@ func vfGenC07(t *rapid.T) vfC07Case {
 		}
 	}
 	vfGenScene(t, c.Cfg, c.Frames, c.Base, maxMut)
+	if rapid.IntRange(0, 79).Draw(t, "wholeframe") == 0 {
+		// a Boson-sized image in which every interior pixel changes at once: more than 65536 qualifying pixels,
+		// with a count-thresh larger than what is left of that number after a 16-bit wrap
+		c.Cfg.W, c.Cfg.H = 320, 256
+		c.Cfg.Edge = rapid.IntRange(0, 1).Draw(t, "edgeW")
+		interior := (c.Cfg.W - 2*c.Cfg.Edge) * (c.Cfg.H - 2*c.Cfg.Edge)
+		c.Cfg.Count = rapid.IntRange(interior-65536+1, interior).Draw(t, "countW")
+		c.Cfg.T, c.Cfg.D, c.Cfg.Gap = 1000, 50, 1
+		c.Base = 3000
+		lo, hi := uint16(3000), uint16(3400)
+		c.Frames = vfGenTimeline(t, 4, false, false)
+		c.Frames[0].Fill, c.Frames[1].Fill, c.Frames[2].Fill, c.Frames[3].Fill = &lo, &hi, &lo, &hi
+		for i := range c.Frames {
+			c.Frames[i].Mut = nil
+		}
+	}
 	return c
 }
 
